@@ -4,37 +4,64 @@ from . import hir
 from .core import Out
 from .rules_tables import last, const_value, variants_of
 from .rules_struct import place, calls_in
+from . import roles
 
 # SPL: which rule class is reported while checking which construct (frozen from the message texts / SPL spec)
-MESSAGE_SITE = {
-    "AssignmentHasDifferentTypes": "<ast::Assignment as table::semantic::AnalyzeStatement>::analyze",
-    "AssignmentRequiresIntegers": "<ast::Assignment as table::semantic::AnalyzeStatement>::analyze",
-    "IfConditionMustBeBoolean": "<ast::IfStatement as table::semantic::AnalyzeStatement>::analyze",
-    "WhileConditionMustBeBoolean": "<ast::WhileStatement as table::semantic::AnalyzeStatement>::analyze",
-    "UndefinedProcedure": "<ast::CallStatement as table::semantic::AnalyzeStatement>::analyze",
-    "CallOfNoneProcedure": "<ast::CallStatement as table::semantic::AnalyzeStatement>::analyze",
-    "ArgumentsTypeMismatch": "<ast::CallStatement as table::semantic::AnalyzeStatement>::analyze",
-    "ArgumentMustBeAVariable": "<ast::CallStatement as table::semantic::AnalyzeStatement>::analyze",
-    "TooFewArguments": "<ast::CallStatement as table::semantic::AnalyzeStatement>::analyze",
-    "TooManyArguments": "<ast::CallStatement as table::semantic::AnalyzeStatement>::analyze",
-    "OperatorDifferentTypes": "<ast::BinaryExpression as table::semantic::AnalyzeExpression>::analyze",
-    "ComparisonNonInteger": "<ast::BinaryExpression as table::semantic::AnalyzeExpression>::analyze",
-    "ArithmeticOperatorNonInteger": "<ast::BinaryExpression as table::semantic::AnalyzeExpression>::analyze",
-    "UndefinedVariable": "<ast::Variable as table::semantic::AnalyzeExpression>::analyze",
-    "NotAVariable": "<ast::Variable as table::semantic::AnalyzeExpression>::analyze",
-    "IndexingNonArray": "<ast::ArrayAccess as table::semantic::AnalyzeExpression>::analyze",
-    "IndexingWithNonInteger": "<ast::ArrayAccess as table::semantic::AnalyzeExpression>::analyze",
-    "UndefinedType": "table::build::get_data_type",
-    "NotAType": "table::build::get_data_type",
-    "RedeclarationAsType": "<ast::TypeDeclaration as table::build::TableBuilder>::build",
-    "MustBeAReferenceParameter": "table::build::build_parameter",
-    "RedeclarationAsProcedure": "<ast::ProcedureDeclaration as table::build::TableBuilder>::build",
-    "RedeclarationAsParameter": "table::build::build_parameter",
-    "RedeclarationAsVariable": "table::build::build_variable",
-    "MainIsMissing": "<ast::Program as table::build::TableBuilder>::build",
-    "MainIsNotAProcedure": "<ast::TypeDeclaration as table::build::TableBuilder>::build",
-    "MainMustNotHaveParameters": "<ast::Program as table::build::TableBuilder>::build",
+# SPL: which rule class is reported while checking which *kind of node* (frozen from the message texts / SPL spec).
+# A function is "about" node type N if it is a method of an impl for N, or takes N (possibly behind &mut/Option/Reference)
+# as a parameter, or is a private helper only called from such functions.
+MESSAGE_NODE = {
+    "AssignmentHasDifferentTypes": "Assignment", "AssignmentRequiresIntegers": "Assignment",
+    "IfConditionMustBeBoolean": "IfStatement", "WhileConditionMustBeBoolean": "WhileStatement",
+    "UndefinedProcedure": "CallStatement", "CallOfNoneProcedure": "CallStatement", "ArgumentsTypeMismatch": "CallStatement",
+    "ArgumentMustBeAVariable": "CallStatement", "TooFewArguments": "CallStatement", "TooManyArguments": "CallStatement",
+    "OperatorDifferentTypes": "BinaryExpression", "ComparisonNonInteger": "BinaryExpression",
+    "ArithmeticOperatorNonInteger": "BinaryExpression",
+    "UndefinedVariable": "Variable", "NotAVariable": "Variable",
+    "IndexingNonArray": "ArrayAccess", "IndexingWithNonInteger": "ArrayAccess",
+    "UndefinedType": "TypeExpression", "NotAType": "TypeExpression",
+    "RedeclarationAsType": "TypeDeclaration", "MustBeAReferenceParameter": "ParameterDeclaration",
+    "RedeclarationAsProcedure": "ProcedureDeclaration", "RedeclarationAsParameter": "ParameterDeclaration",
+    "RedeclarationAsVariable": "VariableDeclaration", "MainIsMissing": "Program", "MainIsNotAProcedure": "TypeDeclaration",
+    "MainMustNotHaveParameters": "Program",
 }
+
+
+def _about(c, b):
+    """AST node types a function is directly about"""
+    res = set()
+    if "impl_self" in b:
+        t = hir.peel(c, b["impl_self"])
+        if t["k"] == "adt" and t["p"].startswith("spl_frontend::ast::"):
+            res.add(last(t["p"]))
+    for p_ in b["params"]:
+        for bd in hir.pat_bindings(p_):
+            t = c.ty(bd["bt"])
+            # peel refs, Option, Box, Reference
+            seen = 0
+            while seen < 6:
+                seen += 1
+                if t["k"] == "ref":
+                    t = c.ty(t["t"])
+                elif t["k"] == "adt" and t["p"] in ("core::option::Option", "alloc::boxed::Box", "spl_frontend::ast::Reference") and t["a"]:
+                    t = c.ty(int(t["a"][0]))
+                else:
+                    break
+            if t["k"] == "adt" and t["p"].startswith("spl_frontend::ast::"):
+                res.add(last(t["p"]))
+    return res
+
+
+def _is_about(prog, b, node, cmap, depth=0):
+    c = b["_crate"]
+    if node in _about(c, b):
+        return True
+    if depth > 3:
+        return False
+    callers = cmap.get(b["p"], set()) - {b["p"]}
+    if not callers:
+        return False
+    return all(prog.body(x) is not None and _is_about(prog, prog.body(x), node, cmap, depth + 1) for x in callers)
 
 
 def _ctor_sites(prog, adt):
@@ -53,19 +80,21 @@ def rule_message_site(prog):
     out = Out("MESSAGE-SITE")
     c = prog.front
     n = 0
+    cmap = hir.callers_map(prog, "spl_frontend")
     for enum in ("BuildErrorMessage", "SemanticErrorMessage"):
         sites = _ctor_sites(prog, "spl_frontend::error::" + enum)
         for v, lst in sorted(sites.items()):
-            want = MESSAGE_SITE.get(v)
+            want = MESSAGE_NODE.get(v)
             if want is None:
                 continue  # a new message kind: VARIANTS still demands an emitting site and a text
             for b, node, parents in lst:
                 n += 1
-                out.add(b["d"], "%s is reported while checking the construct it names" % v, b["d"] == want, c.loc(node["sp"]),
-                        "`%s` is constructed in `%s`; the SPL rule it stands for is checked in `%s`: a diagnostic would name the wrong rule"
+                out.add("error::%s::%s" % (enum, v), "is reported while checking a %s" % want, _is_about(prog, b, want, cmap), c.loc(node["sp"]),
+                        "`%s` is constructed in `%s`, a function that is not about `%s` nodes: a diagnostic would name the wrong rule"
                         % (v, b["d"], want), ("site",))
     # finer arm -> message tables
-    call = [b for b in c.bodies if b["d"] == MESSAGE_SITE["TooFewArguments"]]
+    call = [b for b in c.bodies if any(last(p_["res"].get("ctor_of", "")) == "TooFewArguments" for p_ in hir.nodes(b["body"], "Path"))
+            and c.file_of(b["sp"]).startswith("spl_frontend/src/table")]
     if call:
         for m in hir.nodes(call[0]["body"], "Match"):
             arms = {}
@@ -78,12 +107,32 @@ def rule_message_site(prog):
             if arms:
                 # scrutinee: arg_len.cmp(&param_len)
                 sc = hir.strip(m["scrut"])
-                ok_dir = sc.get("k") == "MethodCall" and sc["m"] == "cmp" and "arg" in (place(sc["recv"]) or "") and "param" in (place(sc["args"][0]) or "")
+                ok_dir = sc.get("k") == "MethodCall" and sc["m"] == "cmp"
+                if ok_dir:
+                    # which side counts the arguments? (follow local lets)
+                    defs_ = {}
+                    for l_ in hir.nodes(call[0]["body"], "Let"):
+                        if l_["pat"].get("k") == "Binding" and l_.get("init") is not None:
+                            defs_[l_["pat"]["id"]] = l_["init"]
+
+                    def side(e_):
+                        e_ = hir.strip_ref(e_)
+                        pl_ = hir.path_local(e_)
+                        if pl_ and pl_["id"] in defs_:
+                            e_ = defs_[pl_["id"]]
+                        names_ = [f_["name"] for f_ in hir.nodes(e_, "Field")]
+                        return "args" if "arguments" in names_ else "params" if "parameters" in names_ else None
+                    l_side, r_side = side(sc["recv"]), side(sc["args"][0])
+                    if (l_side, r_side) == ("params", "args"):
+                        arms = {"Less": arms.get("Greater"), "Greater": arms.get("Less"), "Equal": arms.get("Equal")}
+                    elif (l_side, r_side) != ("args", "params"):
+                        ok_dir = None
                 n += 1
                 out.add(call[0]["d"], "fewer arguments than parameters => TooFewArguments, more => TooManyArguments",
-                        arms.get("Less") == {"TooFewArguments"} and arms.get("Greater") == {"TooManyArguments"} and not arms.get("Equal") and ok_dir,
+                        (arms.get("Less") == {"TooFewArguments"} and arms.get("Greater") == {"TooManyArguments"} and not arms.get("Equal")) if ok_dir else None,
                         c.loc(m["sp"]), "arms: %s" % {k: sorted(v) for k, v in arms.items()}, ("arm",))
-    binb = [b for b in c.bodies if b["d"] == MESSAGE_SITE["ComparisonNonInteger"]]
+    binb = [b for b in c.bodies if any(last(p_["res"].get("ctor_of", "")) == "ComparisonNonInteger" for p_ in hir.nodes(b["body"], "Path"))
+            and c.file_of(b["sp"]).startswith("spl_frontend/src/table")]
     if binb:
         for iff in hir.nodes(binb[0]["body"], "If"):
             cond = hir.strip(iff["cond"])
@@ -103,7 +152,8 @@ def rule_message_site(prog):
                         out.add(binb[0]["d"], "arithmetic operators yield int, comparisons yield boolean", tv == {"Int"} and ev == {"Bool"},
                                 c.loc(iff["sp"]), "then %s else %s" % (sorted(tv), sorted(ev)), ("arm",))
     for kind, want in (("IfStatement", "IfConditionMustBeBoolean"), ("WhileStatement", "WhileConditionMustBeBoolean")):
-        bs = [b for b in c.bodies if b["d"] == MESSAGE_SITE[want]]
+        bs = [b for b in c.bodies if any(last(p_["res"].get("ctor_of", "")) == want for p_ in hir.nodes(b["body"], "Path"))
+              and c.file_of(b["sp"]).startswith("spl_frontend/src/table")]
         if bs:
             # guarded by `condition_type != DataType::Bool` (in the function itself, or in a local helper the message is handed to)
             ok = None
@@ -392,8 +442,9 @@ def rule_diag_flag(prog):
     out.add("server::LanguageServer::initialize", "diagnostics support = client announced textDocument.publishDiagnostics", ok, c.loc(ini[0]["sp"]), "")
     ok = False
     for call in hir.nodes(run[0]["body"], "Call"):
-        if (hir.callee_display(call) or "") == "document::broker" and len(call["args"]) == 3:
-            ok = (place(call["args"][2]) or "").endswith(".client_details.diagnostics")
+        bf = roles.broker_fn(prog)
+        if bf is not None and (hir.callee(call) or "") == bf["p"]:
+            ok = any((place(a) or "").endswith(".client_details.diagnostics") for a in call["args"])
     out.add("server::LanguageServer::run", "the broker is started with the negotiated diagnostics flag", ok, c.loc(run[0]["sp"]), "")
     # run(): initialization precedes the broker start (the flag is only known afterwards)
     return out
@@ -410,7 +461,8 @@ def rule_ident_range(prog):
         if b is None:
             out.missing(fn)
             continue
-        convs = [x for x in hir.nodes(b["body"], "Call") if (hir.callee_display(x) or "") == "document::as_pos_range"]
+        apr = roles.conv(prog).get("as_pos_range")
+        convs = [x for x in hir.nodes_deep(prog, b["body"], 1) if x.get("k") == "Call" and apr is not None and (hir.callee(x) or "") == apr["p"]]
         for cv in convs:
             a0 = hir.strip_ref(cv["args"][0])
             ok = a0.get("k") == "MethodCall" and a0["m"] == "to_range" and hir.adt_path(c, a0["recv"]["t"]) == IDENT
